@@ -11,18 +11,19 @@ SKIP = {
     "min_base_size_mask", "pairwise_significance_tests", "cube_index", "dimension_types", "ndim",
     "selected_category_labels", "variable_name", "name", "description", "title", "tab_label", "tab_alias", "table_name",
     "cube_is_mr_aug", "cube_is_mr_by_itself", "cube_row_dimension_type",
-    # expand counts with np.repeat: data-dependent array length, no bounded encoding (DESIGN 10)
+    # expand counts with np.repeat (encoded as multisets, DESIGN 10): forks on parity and cumulative counts, so they are read only
+    # where a scenario asks for them (public_props(include=...)); C14 checks their values
     "rows_scale_median_margin", "columns_scale_median_margin", "scale_median",
     # legacy summary objects built on scipy without the public t/p outputs
     "summary_pairwise_indices", "columns_scale_mean_pairwise_indices", "columns_scale_mean_pairwise_indices_alt",
 }
 
 
-def public_props(obj):
+def public_props(obj, include=()):
     names = []
     for klass in type(obj).__mro__:
         for k, v in vars(klass).items():
-            if k.startswith("_") or k in SKIP:
+            if k.startswith("_") or (k in SKIP and k not in include):
                 continue
             if isinstance(v, (lazyproperty, property)) and k not in names:
                 names.append(k)
